@@ -17,6 +17,11 @@ Oracle after every save:
     overwrite=False the entries that were there before plus the new one, with overwrite=True
     only the new one; the new one under `key`, or under the first unused 'arr_N';
   * no other file of the directory changes.
+
+Engine L (sub-check data_alphabet): the DATA rather than the history is varied - constant and
+nearly constant coefficients, a single frame, zeros, large / tiny / mixed magnitudes, float32 /
+float64, 1..1000 frames - saved to a fresh path of every target kind and reloaded; the reloaded
+object's apply() must be bit-identical to the saving object's.
 """
 import copy
 import hashlib
@@ -32,12 +37,17 @@ from .. import computers, core, explorer, sig
 
 LEVEL = "model_checking"
 ASSUMPTIONS = [
-    "histories are bounded by depth (3 quick / 4 thorough) from 12 initial configurations "
-    "(statistics in {none, positive, negative, float32 mixed, small negative, big} x directory in "
+    "histories are bounded by depth (3 quick / 4 thorough) from 16 initial configurations "
+    "(statistics in {none, positive, negative, float32 mixed, small negative, big, constant non-integer "
+    "frames, a single frame} x directory in "
     "{empty, pre-existing foreign files}); alphabet: 3 accumulate pieces and 20 save calls over "
     "paths {a.npy, a.npz, a.bin (raw), b.npz}, keys {None,'k','other'}, compress, overwrite",
     "data values: three 3x2 pieces with fixed sign structure (positive sums, negative sums, float32 "
     "with one positive and one negative coefficient), magnitudes from mc/sig.py",
+    "data_alphabet: 12 kinds of data (generic, constant coefficients 0.1 / 1/3 / log(1e-6) / 2.0 / mixed, one "
+    "constant coefficient, all zeros, large, tiny, mixed magnitudes, nearly constant) x float32/float64 x "
+    "frame counts {1,2,3,7,10,100,257,1000}, accumulated as one tensor or frame by frame; where apply() is not "
+    "defined by a formula (zero variance) the reloaded object is compared with the saving object only",
     "numpy.load / numpy.save(z) and zipfile are trusted to decode what was written; raw files are "
     "reloaded with force_as='file' and no dtype, npz entries with key=<name> (no key for 'arr_0')",
 ]
@@ -47,10 +57,15 @@ PIECES = ("pos", "neg", "f32")
 
 
 def _piece(seed, name):
-    i = dict(pos=0, neg=1, f32=2, small_neg=3, big=4)[name]
+    i = dict(pos=0, neg=1, f32=2, small_neg=3, big=4, const=5, single=6)[name]
     s = np.abs(sig.signal(seed, 3 * F, offset=30 + i).reshape(3, F)) + 0.5
     s = s + np.arange(3)[:, None]  # three distinct vectors: no zero variance
-    if name == "pos":
+    if name == "const":
+        # every frame the same non-integer vector (a band clamped to its floor): zero variance
+        x = np.tile(np.array([0.1, -1.0 / 3.0]), (3, 1))
+    elif name == "single":
+        x = -s[:1]  # one frame only
+    elif name == "pos":
         x = s
     elif name == "neg":
         x = -3.0 * s
@@ -106,7 +121,7 @@ class Ctx:
         self.c, self.dir = c, scratch
         self.depth = c["depth"]
         self.norm_var = bool(c.get("norm_var", True))
-        self.pieces = dict((n, _piece(seed, n)) for n in PIECES + ("small_neg", "big"))
+        self.pieces = dict((n, _piece(seed, n)) for n in PIECES + ("small_neg", "big", "const", "single"))
         p = sig.signal(seed, 3 * F, offset=40).reshape(3, F) * 2.0 - 1.0
         self.probes = [sig.ro(p), sig.ro(p[1])]
 
@@ -373,11 +388,165 @@ def _configs(tier):
     depth = 3 if tier == "quick" else 4
     out = []
     for d in ("foreign", "empty"):
-        for stats in ("pos", "neg", "f32", "none", "small_neg", "big"):
+        for stats in ("pos", "neg", "f32", "none", "small_neg", "big", "const", "single"):
             out.append(dict(stats=stats, dir=d, depth=depth))
     if tier == "thorough":
         out += [dict(stats=s, dir="foreign", depth=3, norm_var=False) for s in ("pos", "neg", "f32")]
     return out
+
+
+# ------------------------------------------------------------------ data alphabet (engine L)
+#
+# The property quantifies over "any accumulated data".  The search above varies the HISTORY of
+# saves over three generic pieces; this lattice varies the DATA: constant and nearly constant
+# coefficients (sums of squares within an ulp of count * mean^2), a single frame, all zeros,
+# large / tiny / mixed magnitudes, float32 and float64, 1..1000 frames, saved to every kind of
+# target and reloaded.  Oracle: only what C17 states - save succeeds, the reload succeeds and
+# its apply() is bit-identical to the saving object's (also where a zero variance leaves the
+# value of apply() itself undefined: original and reloaded object are compared, no formula).
+
+AF = 3
+A_KINDS = ("generic", "const:0.1", "const:third", "const:logfloor", "const:2", "const:mixed", "one_const",
+           "zeros", "large", "tiny", "mixed_magnitude", "near_const")
+A_COUNTS = (1, 2, 3, 7, 10, 100, 257, 1000)
+A_DTYPES = ("float64", "float32")
+A_TARGETS = (("npy", "s.npy", None, False), ("npz", "s.npz", None, False), ("npz", "s.npz", "k", False),
+             ("npz", "s.npz", None, True), ("npz", "s.npz", "k", True), ("raw", "s.bin", None, False),
+             ("raw", "s.stats", None, False))
+
+
+def _alpha_data(seed, kind, n, dtype):
+    g = sig.signal(seed, n * AF, offset=50).reshape(n, AF)
+    one = np.ones((n, AF))
+    if kind == "generic":
+        x = g * 2.0 - 1.0
+    elif kind == "const:0.1":
+        x = 0.1 * one
+    elif kind == "const:third":
+        x = one / 3.0
+    elif kind == "const:logfloor":
+        x = one * float(np.log(1e-6))
+    elif kind == "const:2":
+        x = 2.0 * one
+    elif kind == "const:mixed":
+        x = one * np.array([0.1, -1.0 / 3.0, 7.3])
+    elif kind == "one_const":
+        x = g * 2.0 - 1.0
+        x[:, 0] = 0.1
+    elif kind == "zeros":
+        x = 0.0 * one
+    elif kind == "large":
+        x = 1e6 * (1.0 + 1e-3 * g)
+    elif kind == "tiny":
+        x = 1e-6 * g
+    elif kind == "mixed_magnitude":
+        x = g * np.array([1e8, 1e-8, 1.0])
+    elif kind == "near_const":
+        x = 0.1 + 1e-9 * g
+    else:
+        raise core.HarnessError("unknown data kind %r" % kind)
+    return sig.ro(x.astype(dtype))
+
+
+def _alpha_apply(obj, probes):
+    """apply() of every probe; an exception is part of the observation"""
+    out = []
+    with warnings.catch_warnings():
+        warnings.simplefilter("ignore")
+        with np.errstate(all="ignore"):
+            for x, axis in probes:
+                r = computers.call(obj.apply, x, axis)
+                out.append(("exc", r[1]) if r[0] != "ok" else
+                           ("ok", r[1].dtype.str, r[1].shape, r[1].tobytes()))
+    return out
+
+
+def _alpha_one(seed, kind, dtype, n, pres, norm_var, target, scratch):
+    from pydrobert.speech import post
+
+    tkind, name, key, compress = target
+    data = _alpha_data(seed, kind, n, dtype)
+    constant = bool(np.any(np.all(data == data[0], axis=0)))
+    tags = dict(check="data", target=tkind, constant_coefficient=constant)
+    case = dict(kind=kind, dtype=dtype, n=n, pres=pres, norm_var=norm_var, target=list(target))
+    obj = post.Standardize(norm_var=norm_var)
+    if pres == "tensor":
+        r = computers.call(obj.accumulate, data, -1)
+    else:
+        r = ("ok", None)
+        for row in data:
+            r = computers.call(obj.accumulate, row)
+            if r[0] != "ok":
+                break
+    if r[0] != "ok":
+        return [core.violation(dict(tags, what="accumulate_exception", exc=r[1]),
+                               "accumulate raised %s: %s" % (r[1], r[2]), case)], None
+    g = sig.signal(seed, 3 * AF, offset=51).reshape(3, AF) * 2.0 - 1.0
+    probes = [(sig.ro(g), -1), (sig.ro(g[0]), -1), (sig.ro(g.T), 0),
+              (sig.ro(np.asarray(data[:3], dtype=np.float64)), -1), (sig.ro(data[0]), -1)]
+    path = os.path.join(scratch, name)
+    if os.path.exists(path):
+        os.remove(path)
+    r = computers.call(obj.save, path, key, compress)
+    if r[0] != "ok":
+        return [core.violation(dict(tags, what="save_raises", exc=r[1]),
+                               "save(%r, key=%r, compress=%r) raised %s: %s" % (name, key, compress, r[1], r[2]),
+                               case)], None
+    kw = {}
+    if tkind == "raw":
+        kw["force_as"] = "file"
+    if key is not None:
+        kw["key"] = key
+    if not norm_var:
+        kw["norm_var"] = False
+    how = "Standardize(%r%s)" % (name, "".join(", %s=%r" % kv for kv in sorted(kw.items())))
+    rr = computers.call(lambda: post.Standardize(path, **kw))
+    if rr[0] != "ok":
+        return [core.violation(
+            dict(tags, what="reload_raises", exc=rr[1]),
+            "%s after save raised %s: %s (statistics %s)" % (how, rr[1], rr[2],
+                                                            np.asarray(obj._stats).tolist()
+                                                            if hasattr(obj, "_stats") else "?"), case)], None
+    a, b = _alpha_apply(rr[1], probes), _alpha_apply(obj, probes)
+    if a != b:
+        i = [x != y for x, y in zip(a, b)].index(True)
+
+        def show(o):
+            return o[1] if o[0] == "exc" else np.frombuffer(o[3], dtype=o[1]).ravel()[:4].tolist()
+        return [core.violation(dict(tags, what="reload_differs"),
+                               "%s: apply(probe %d) gives %r, the saving object %r" % (
+                                   how, i, show(a[i]), show(b[i])), case)], None
+    return [], (tkind, kind.split(":")[0], constant, all(o[0] == "ok" for o in b))
+
+
+def _eval_alpha(pt, seed):
+    kind, dtype, n = pt
+    scratch = tempfile.mkdtemp(prefix="verif-")
+    viol, evals, obs = [], 0, set()
+    try:
+        for pres in ("tensor", "frames"):
+            for norm_var in (True, False):
+                for target in A_TARGETS:
+                    v, o = _alpha_one(seed, kind, dtype, n, pres, norm_var, target, scratch)
+                    evals += 1
+                    viol.extend(v)
+                    if o is not None:
+                        obs.add(o)
+    finally:
+        shutil.rmtree(scratch, ignore_errors=True)
+    return core.result(viol, evals=evals, nontrivial_count=evals, obs=sorted(map(str, obs)), obs_is_set=True,
+                       sample=dict(kind=kind, dtype=dtype, frames=n,
+                                   inner="presentation {tensor, frame by frame} x norm_var x 7 targets"))
+
+
+def _replay_alpha(case, seed):
+    scratch = tempfile.mkdtemp(prefix="verif-")
+    try:
+        v, _ = _alpha_one(seed, case["kind"], case["dtype"], case["n"], case["pres"], case["norm_var"],
+                          tuple(case["target"]), scratch)
+    finally:
+        shutil.rmtree(scratch, ignore_errors=True)
+    return core.result(v)
 
 
 def subchecks(tier, seed):
@@ -388,9 +557,19 @@ def subchecks(tier, seed):
         "Standardize and one scratch directory; after every save: reload gives array_equal "
         "apply(), npz contents as the docstring promises, other files untouched, ValueError "
         "without statistics; non-trivial = more than 4 distinct save observations",
-        axes=dict(initial_stats=["pos", "neg", "f32", "none", "small_neg", "big"],
+        axes=dict(initial_stats=["pos", "neg", "f32", "none", "small_neg", "big", "const", "single"],
                   initial_dir=["foreign (a.npy, a.bin, a.npz{other,arr_0}, b.npz{k,arr_1})", "empty"],
                   depth=3 if tier == "quick" else 4,
                   accumulate=list(PIECES), saves=SAVES),
         replay=lambda case: explore_config(case["config"], seed, replay_ops=case["ops"]),
-        chunk=1, kind="explore")]
+        chunk=1, kind="explore"),
+        core.SubCheck(
+            "data_alphabet", [[k, d, n] for k in A_KINDS for d in A_DTYPES for n in A_COUNTS],
+            lambda p: _eval_alpha(p, seed),
+            "every (kind of data, dtype, frame count): accumulate (one tensor / frame by frame) x norm_var x "
+            "every target kind, save to a fresh path, reload, apply() of 5 probes bit-identical to the saving "
+            "object's; non-trivial = the reload was compared",
+            axes=dict(kind=list(A_KINDS), dtype=list(A_DTYPES), frames=list(A_COUNTS),
+                      presentation=["tensor", "frames"], norm_var=[True, False],
+                      target=[list(t) for t in A_TARGETS]),
+            replay=lambda case: _replay_alpha(case, seed))]
